@@ -28,6 +28,7 @@ type Obligation struct {
 	Path    string
 	Note    string
 	Inputs  map[string]string // param name -> symbol (for replay)
+	AxiomOrder int
 }
 
 type loopInfo struct {
@@ -63,6 +64,7 @@ type Exec struct {
 	assignLocs  []assignLoc
 	coverDone   map[string]bool
 	curSite     string
+	loadBound   *Term
 }
 
 type assignLoc struct {
@@ -388,6 +390,30 @@ func (x *Exec) runBlock(s *State, b *ssa.BasicBlock, pred *ssa.BasicBlock, k con
 	loops := x.loopsOf(fr.fn)
 	li := loops[b]
 	i := 0
+	// ghost assertions at the end of an iteration (evaluated with the pre-advance loop variables)
+	if li != nil && pred != nil && li.latches[pred] && fr.visited[b] {
+		if fc := x.contractFor(fr.fn); fc != nil && fc.Loops[li.ordinal] != nil {
+			// loop variables denote their values at the start of the iteration that just ended
+			iterStart := map[string]Val{}
+			for _, in := range b.Instrs {
+				phi, ok := in.(*ssa.Phi)
+				if !ok {
+					break
+				}
+				if phi.Comment != "" {
+					iterStart[phi.Comment] = fr.vals[phi]
+				}
+			}
+			for _, la := range fc.Loops[li.ordinal].Latch {
+				t, err := x.specBool(s, fr, la.E, iterStart)
+				if err != nil {
+					x.abort(fmt.Sprintf("loop%d latch %s: %v", li.ordinal, la.Name, err))
+					return
+				}
+				x.check(s, "invariant", fmt.Sprintf("loop%d.latch.%s", li.ordinal, la.Name), t, la.Text)
+			}
+		}
+	}
 	// phis
 	if pred != nil {
 		predIdx := -1
@@ -437,7 +463,7 @@ func (x *Exec) runBlock(s *State, b *ssa.BasicBlock, pred *ssa.BasicBlock, k con
 						x.abort(fmt.Sprintf("%s invariant %s: %v", lname, inv.Name, err))
 						return
 					}
-					x.emit(s, "invariant", lname+"."+inv.Name+".preserved", t, inv.Text)
+					x.check(s, "invariant", lname+"."+inv.Name+".preserved", t, inv.Text)
 				}
 			}
 			for _, t := range x.autoInvariants(s, fr, b) {
@@ -453,7 +479,7 @@ func (x *Exec) runBlock(s *State, b *ssa.BasicBlock, pred *ssa.BasicBlock, k con
 					x.abort(fmt.Sprintf("%s invariant %s: %v", lname, inv.Name, err))
 					return
 				}
-				x.emit(s, "invariant", lname+"."+inv.Name+".entry", t, inv.Text)
+				x.check(s, "invariant", lname+"."+inv.Name+".entry", t, inv.Text)
 			}
 		}
 		autos := x.autoInvariants(s, fr, b)
@@ -747,7 +773,12 @@ func (x *Exec) step(s *State, fr *Frame, in ssa.Instruction) error {
 				return err
 			}
 			t = x.name(s, "v$"+in.Name(), t)
-			x.assumeTyped(s, t, elem)
+			if x.loadBound != nil {
+				s.assume(x.eng.typeInv(t, elem, x.mode, x.loadBound))
+				x.assumeInv(s, t, elem, TTrue)
+			} else {
+				x.assumeTyped(s, t, elem)
+			}
 			fr.vals[in] = Val{T: t, GoT: in.Type()}
 			return nil
 		case token.NOT:
